@@ -578,3 +578,57 @@ func (s *SpyHash) Size() int      { return s.Inner.Size() }
 func (s *SpyHash) BlockSize() int { return s.Inner.BlockSize() }
 
 var _ = io.EOF
+
+// Models of byte searches (the executor runs these instead of the assembly-backed originals).
+func BytesIndexModel(s, sep []byte) int {
+	for i := 0; i+len(sep) <= len(s); i++ {
+		match := true
+		for j := range sep {
+			if s[i+j] != sep[j] {
+				match = false
+				break
+			}
+		}
+		if match {
+			return i
+		}
+	}
+	return -1
+}
+
+func BytesIndexByteModel(s []byte, c byte) int {
+	for i := range s {
+		if s[i] == c {
+			return i
+		}
+	}
+	return -1
+}
+
+func BytesContainsModel(s, sep []byte) bool { return BytesIndexModel(s, sep) >= 0 }
+
+func BytesCountByteModel(s []byte, c byte) int {
+	n := 0
+	for i := range s {
+		if s[i] == c {
+			n++
+		}
+	}
+	return n
+}
+
+func BytesCountModel(s, sep []byte) int {
+	if len(sep) == 0 {
+		return len(s) + 1
+	}
+	n := 0
+	for i := 0; i+len(sep) <= len(s); {
+		if BytesIndexModel(s[i:i+len(sep)], sep) == 0 {
+			n++
+			i += len(sep)
+		} else {
+			i++
+		}
+	}
+	return n
+}
